@@ -495,3 +495,6 @@ MUTANTS += [
  dict(name='seed-C18-gt-exp-pointer-table', prop='C18', patch='seeded/C18-gt-exp-pointer-table/patch.diff', expect='exponentiate_gt'),
  dict(name='seed-C19-preparedpair-private-field', prop='C19', patch='seeded/C19-preparedpair-private-field/patch.diff', expect='R-LAYOUT'),
 ]
+MUTANTS += [
+ dict(name='seed-C20-legendre-lazy-cache', prop='C20', patch='seeded/C20-legendre-lazy-cache/patch.diff', expect='R-EFFECT/escape'),
+]
